@@ -446,7 +446,11 @@ impl AsyncWrite for PipeWriter {
             n = n.min(c);
             g.credit = Some(c - n);
         }
-        g.tap.extend_from_slice(&buf[..n]);
+        {
+            #[cfg(feature = "heapmon")]
+            let _p = crate::heap::Paused::new();
+            g.tap.extend_from_slice(&buf[..n]);
+        }
         g.stats.bytes_out += n as u64;
         let off = g.tap.len();
         let t = tick();
